@@ -479,6 +479,26 @@ def add_group_by(rng, spec, info):
         while j < n and v[j] == x and (levels == 1 or cols_vals[-2][j] == cols_vals[-2][i]):
             v[j] = None
             j += 1
+    if n >= 3 and rng.random() < 0.12:
+        # non-contiguous keys at some level (within one parent group for the deeper levels): the one refusal C01 allows,
+        # ValueError — whatever the type of the key values
+        l = rng.randrange(levels)
+        v = cols_vals[l]
+        parent = (lambda i: tuple(cols_vals[m][i] for m in range(l)))
+        cand = [(i, j) for i in range(n) for j in range(i + 2, n)
+                if parent(i) == parent(j) and v[i] != v[j] and any(v[m] != v[i] for m in range(i + 1, j))
+                and all(parent(m) == parent(i) for m in range(i, j + 1))]
+        if cand:
+            i, j = rng.choice(cand)
+            v[j] = v[i]
+    if n and rng.random() < 0.25:
+        # a level whose keys are integers (codes of the string values)
+        l = rng.randrange(levels)
+        code = {}
+        for x in cols_vals[l]:
+            if x is not None:
+                code.setdefault(x, len(code) + 1)
+        cols_vals[l] = [None if x is None else code[x] for x in cols_vals[l]]
     spec["df"]["cols"] = spec["df"]["cols"] + names
     for i, r in enumerate(spec["df"]["rows"]):
         for l in range(levels):
@@ -643,6 +663,12 @@ def run(res, tier):
             res.corr_checked += 1
         elif o["verdict"] in ("near", "construct-error"):
             pass
+        elif o["verdict"] == "error-kind" and o["model"].get("error") == "ValueError":
+            # the model refuses with the ValueError C01 allows (non-contiguous group_by keys); the encoder refuses with
+            # another exception class
+            res.corr_checked += 1
+            res.fail(case, f"rtf_encode() raises {o['exc']}: {o['msg'][:300]} — the only refusal allowed is ValueError "
+                           f"(non-contiguous group_by keys); {st}")
         elif o["verdict"] == "real-error":
             # the model (which reproduces every refusal of the unchanged encoder) returns a document and the encoder
             # raises on a configuration accepted at construction: C01's first clause fails on this very input
